@@ -58,7 +58,7 @@ func genC12(seed int64, tier string) []caseOut {
 	}
 	r := rand.New(rand.NewSource(seed + 7))
 	for i := 0; i < n; i++ {
-		doc := M{"publicKey": A{validKey(r, "key1"), validKey(r, "key2")}, "service": A{validService(r, "svc1")}, "other": M{"k": 1.0}}
+		doc := M{"publicKey": A{validKey(r, "key1"), validKey(r, "key2")}, "service": A{validService(r, "svc1")}, "other": M{"k": 1.0}, "arr": A{1.0, 2.0}}
 		switch r.Intn(4) {
 		case 0:
 			doc = M{}
@@ -81,8 +81,10 @@ func genC12(seed int64, tier string) []caseOut {
 				ps = append(ps, M{"action": "add-also-known-as", "uris": A{"https://aka.example/" + randID(r, 2)}})
 			case 5:
 				ps = append(ps, M{"action": "ietf-json-patch", "patches": A{M{"op": "add", "path": "/note", "value": M{"n": A{1.0, "x"}}}}})
-			case 6: // fails at this position
-				ps = append(ps, M{"action": "ietf-json-patch", "patches": A{M{"op": "remove", "path": "/missing/member"}}})
+			case 6: // fails at this position: an ordinary error, or an operation on which the patch library panics
+				bad := []M{{"op": "remove", "path": "/missing/member"}, {"op": "test", "path": "/missing"}, {"op": "copy", "from": "/other", "path": "/arr/-1"},
+					{"op": "move", "from": "/other", "path": "/arr/-3"}, {"op": "test", "path": "/other/k", "value": 2.0}, {"op": "replace", "path": "/missing/x/y", "value": 1.0}}[r.Intn(6)]
+				ps = append(ps, M{"action": "ietf-json-patch", "patches": A{bad}})
 				label = fmt.Sprintf("patch-list,fails-at-%d", len(ps))
 			}
 		}
